@@ -1,7 +1,8 @@
 (* C02 -- Type soundness: accepted programs never hit dynamic type errors.
    Only pinned statements, `exact`, Examples / refutation witnesses by vm_compute, and Print Assumptions. *)
 From Coq Require Import String List NArith ZArith PArith Bool FMapPositive.
-From Sylt Require Import Syntax.Resolved Types.TyGraph Types.Tc Types.TcInv Types.SoundE0 Types.SoundE1 Types.SoundE2.
+From Sylt Require Import Syntax.Resolved Types.TyGraph Types.Tc Types.TcInv Types.SoundE0 Types.SoundE1 Types.SoundE2
+  Types.Complete1 Types.CompleteE1 Types.EraseAccept.
 Import ListNotations.
 Local Open Scope string_scope.
 
@@ -47,6 +48,26 @@ Theorem C02_accepted_block_typed : forall kinds g sp ss e f ctx s r ov s',
   expression_block (gfix g) (afix kinds (gfix g) f) sp (to_block1 sp ss e) ctx s = Ok ((r, ov), s') ->
   exists t v, ty_block1 [] ss e = Some t /\ ov = Some v /\ head s' v = Some (bty_head t).
 Proof. exact SoundE1.accepted_block1. Qed.
+
+(* the converse of C02_accepted_block_typed: the checker is COMPLETE on the fragment.  A block that is typed by the simple
+   types with an environment (ty_block1) and passes the checks that do not look at types (side_block: every variable has
+   an entry in the variable table, assigned variables are mutable, no assignment / mutable definition / read of a
+   mutable variable in a pure context) is accepted -- from every well-formed state in which its variables (one per
+   definition: NoDup) are still fresh, with the explicit fuel 4+g for the graph functions and 2 + the nesting depth of
+   its expressions for the syntax functions -- and its value gets the type of the block.  With
+   C02_accepted_block_typed: on the fragment, accepted <=> typed, so the rejection of a block of the fragment is never
+   spurious. *)
+Theorem C02_typed_block_accepted : forall kinds g f ctx sp ss e t s,
+  ty_block1 [] ss e = Some t -> side_block kinds ctx ss e = true -> NoDup (defs ss) ->
+  (max_depth ss e < S f)%nat -> wf s -> (forall x, In x (defs ss) -> fresh s x) ->
+  exists v s', expression_block (gfix (S (S (S (S g))))) (afix kinds (gfix (S (S (S (S g))))) (S (S f))) sp
+                 (to_block1 sp ss e) ctx s = Ok ((None, Some v), s') /\ wf s' /\ head s' v = Some (bty_head t).
+Proof. exact EraseAccept.typed_accepted_E1. Qed.
+
+(* and the checks that do not look at types hold of every accepted block *)
+Theorem C02_accepted_block_side : forall kinds g ctx sp ss e f s r s',
+  expression_block (gfix g) (afix kinds (gfix g) f) sp (to_block1 sp ss e) ctx s = Ok (r, s') -> side_block kinds ctx ss e = true.
+Proof. exact EraseAccept.side_of_accepted. Qed.
 
 Theorem C02_typed_block_sound : forall farith fneg fcmp of_int scmp ss G r e t,
   store_ok G r -> ty_block1 G ss e = Some t ->
@@ -201,6 +222,8 @@ Example C02_example_tuple_rejected :
 Proof. vm_compute. reflexivity. Qed.
 
 Print Assumptions C02_E0.
+Print Assumptions C02_typed_block_accepted.
+Print Assumptions C02_accepted_block_side.
 Print Assumptions C02_E2.
 Print Assumptions C02_accepted_block_typed2.
 Print Assumptions C02_typed_block_sound2.
